@@ -547,7 +547,7 @@ class Emitter:
             if bits > 64: return '((%s)%dULL)' % (s.cty(t), val)  # only small constants expected
             if bits == 64:
                 sv = val - (1 << 64) if val >= (1 << 63) else val
-                if not (-(1 << 31) <= sv < (1 << 31)): return 'C64BIG(%dULL)' % val   # narrow mode: saturated, see ll2c_rt.h
+                if not (-(1 << 31) <= sv < (1 << 31)): return ('C64BIG(%dULL)' if getattr(s, 'big_ok', False) else 'C64BIG_V(%dULL)') % val   # narrow mode: not representable; as a VALUE it raises a NARROW property (ll2c_rt.h), comparisons against it are decided exactly by icmp()
             return '((%s)%dULL)' % (s.cty(t), val)
         if k == 'null': return '((ptr)0)'
         if k in ('undef', 'zero'):
@@ -744,7 +744,9 @@ class Emitter:
                     o.append('  if (%s) %s else %s' % (s.v(ins.c), goto(b.name, ins.t), goto(b.name, ins.f)))
                 elif op == 'switch':
                     o.append('  switch (%s) {' % s.v(ins.v))
-                    for cv, lab in ins.cases: o.append('    case %s: %s' % (s.v(cv), goto(b.name, lab)))
+                    for cv, lab in ins.cases:
+                        if s.is_big(cv) is not None: o.append('#ifndef LL2C_W\n    case %dULL: %s\n#endif' % (cv.value & ((1 << 64) - 1), goto(b.name, lab)))   # never equal to a value that fits the narrow width
+                        else: o.append('    case %s: %s' % (s.v(cv), goto(b.name, lab)))
                     o.append('    default: %s }' % goto(b.name, ins.dflt))
                 elif op == 'ret':
                     o.append('  return%s;' % ('' if ins.v is None else ' ' + s.v(ins.v)))
@@ -807,7 +809,29 @@ class Emitter:
             return '((%s)((%s)%s >> %s))' % (ct, st, a, b)
         raise ValueError(op)
 
+    def is_big(s, x):
+        if x.kind != 'int': return None
+        t = res(x.ty)
+        if not (isinstance(t, IntTy) and t.bits == 64): return None
+        val = x.value & ((1 << 64) - 1); sv = val - (1 << 64) if val >= (1 << 63) else val
+        return None if -(1 << 31) <= sv < (1 << 31) else sv
+
     def icmp(s, ins):
+        ba, bb = s.is_big(ins.a), s.is_big(ins.b)
+        if (ba is None) != (bb is None):
+            # x compared with a 64-bit constant outside the narrow range: under the narrow invariant (x fits W bits, checked by the NARROW properties)
+            # the outcome depends only on the sign of x (unsigned predicates) or is constant (signed predicates, eq, ne).  At W=64 the plain comparison is used.
+            swap = ba is not None; big = ba if swap else bb; x = s.v(ins.b if swap else ins.a); p = ins.pred
+            if swap: p = {'ult': 'ugt', 'ule': 'uge', 'ugt': 'ult', 'uge': 'ule', 'slt': 'sgt', 'sle': 'sge', 'sgt': 'slt', 'sge': 'sle'}.get(p, p)
+            if p == 'eq': nar = '0'
+            elif p == 'ne': nar = '1'
+            elif p in ('slt', 'sle'): nar = '1' if big > 0 else '0'
+            elif p in ('sgt', 'sge'): nar = '0' if big > 0 else '1'
+            elif p in ('ult', 'ule'): nar = '((s64)%s >= 0)' % x
+            else: nar = '((s64)%s < 0)' % x
+            cop = {'eq': '==', 'ne': '!=', 'ult': '<', 'ule': '<=', 'ugt': '>', 'uge': '>=', 'slt': '<', 'sle': '<=', 'sgt': '>', 'sge': '>='}[p]
+            cast = '(s64)' if p[0] == 's' else '(u64)'
+            return '((u1)ICMP_BIG(%s, (%s%s %s %s%dULL)))' % (nar, cast, x, cop, cast, big & ((1 << 64) - 1))
         t = res(ins.ty); a = s.v(ins.a); b = s.v(ins.b); p = ins.pred
         cop = {'eq': '==', 'ne': '!=', 'ult': '<', 'ule': '<=', 'ugt': '>', 'uge': '>=', 'slt': '<', 'sle': '<=', 'sgt': '>', 'sge': '>='}[p]
         if isinstance(t, PtrTy):
